@@ -2055,6 +2055,12 @@ class Engine:
             self.last_new_self = new_self
         if callee.returns_expr is not None:
             res = sub.spec(Clause(callee.returns_expr), cst)      # the call returns an existing object (alias)
+        elif callee.inline_result:
+            # a pure scalar getter whose contract says `result == <expr>`: the call IS that expression (no fresh symbol to relate to it)
+            texts = [c.text[len("result == "):] for c in callee.ensures if c.text.startswith("result == ") and "result" not in c.text[10:]]
+            if not texts or callee.modifies:
+                raise EngineError(f"{qual}: inline_result needs modifies=[] and an ensures clause `result == <expr>`")
+            res = sub.spec(Clause(texts[0]), cst)
         else:
             res = self.fresh_result(callee, qual, cst, st)
         self.apply_binds(callee, sub, cst, st)
